@@ -1,6 +1,7 @@
 """C16 - endian-aware binary streams write canonical bytes and read them back (spec/EndianStream.tla)."""
 import os
 import subprocess
+import threading
 import vlib
 
 META = {
@@ -8,14 +9,18 @@ META = {
     "technique": "TLC exhaustive enumeration of EndianStream.tla write histories (every scalar type, arrays of every element "
                  "type, strings, byte-order switches) with the read-back/length/append-only properties checked on the "
                  "specification; every transition replayed on StreamBuffer+StreamBufferReader, File and Socket "
-                 "(socketpair) under ASan+LSan comparing the bytes on the sink and the values read back; recorded random "
-                 "executions (up to 64 values, arrays to length 100, arbitrary bit patterns) validated by TLC against "
-                 "the same actions",
+                 "(socketpair) under ASan+LSan comparing the bytes on the sink and the values read back; a second enumeration "
+                 "(SpecPool) over long-lived objects of the caller (scalar variable, Array<T>, String per element type) written "
+                 "repeatedly between order switches and assignments, with the objects compared with the specification's "
+                 "unchanged pool; recorded random executions (up to 64 values, arrays to length 100, arbitrary bit patterns, "
+                 "up to 6 long-lived objects written repeatedly) validated by TLC against the same actions",
     "design_ref": "DESIGN.md section 6, C16",
     "level_text": "TLC enumerates every history of set-order / write-scalar / write-array / write-string calls up to the "
                   "configured bound on EndianStream.tla, checks on the specification that the stream holds sizeof(T) bytes "
                   "per scalar and length x sizeof(T) per array, that decoding item by item in the order each item was "
-                  "written with returns the items, and that a change of byte order never alters what was written before; "
+                  "written with returns the items, that a change of byte order never alters what was written before, and "
+                  "that no stream call changes an object of the caller (a long-lived scalar/Array/String written again "
+                  "contributes the bytes of its present value); "
                   "each transition is replayed on the three real stream classes with the bytes (buffer, file via POSIX, "
                   "wire via MSG_PEEK) and the read-back values compared; recorded random executions are accepted by TLC "
                   "only if every observed byte and every value read equals what the specification computes.",
@@ -35,10 +40,33 @@ def run(ctx):
     cases = os.path.join(ctx.tmp, "c16.cases")
     ctx.model("EndianStream", cfg, emit_to=cases, timeout=ctx.pick(600, 3000), xmx="8g")
     ctx.exhaustive = True
-    ctx.rule = ("one case per transition of the EndianStream state graph (history of stream calls + expected bytes), each run "
-                "on StreamBuffer, File and Socket; non-trivial = history with >= 2 calls; distinct = distinct case lines (hash)")
-    ctx.replay(rep, cases, label="R/EndianStream", timeout=ctx.pick(900, 5400), env={"VERIF_TMP": ctx.tmp})
+    ctx.rule = ("one case per transition of the EndianStream state graph (history of stream calls + expected bytes + the "
+                "caller's objects as the specification leaves them), for Spec (temporaries) and SpecPool (long-lived objects "
+                "written repeatedly), each run on StreamBuffer, File and Socket; non-trivial = history with >= 2 calls; "
+                "distinct = distinct case lines (hash)")
+    # histories over the caller's long-lived objects (SpecPool): the same scalar variable / Array<T> / String written
+    # repeatedly, between byte-order switches and assignments by the caller; the objects are inputs and must stay as they are.
+    # (TLC enumerates them while the first case file is being replayed.)
+    pcfg = "MC_EndianStream_pool_quick" if ctx.quick else "MC_EndianStream_pool_thorough"
+    pcases = os.path.join(ctx.tmp, "c16pool.cases")
+    box = {}
+
+    def pool_model():
+        try:
+            ctx.model("EndianStream", pcfg, emit_to=pcases, timeout=ctx.pick(600, 3000), xmx="8g", workers=8)
+        except BaseException as e:  # re-raised in the main thread
+            box["err"] = e
+    th = threading.Thread(target=pool_model)
+    th.start()
+    try:
+        ctx.replay(rep, cases, label="R/EndianStream", timeout=ctx.pick(900, 5400), env={"VERIF_TMP": ctx.tmp})
+    finally:
+        th.join()
     os.unlink(cases)
+    if "err" in box:
+        raise box["err"]
+    ctx.replay(rep, pcases, label="R/EndianStreamPool", timeout=ctx.pick(900, 5400), env={"VERIF_TMP": ctx.tmp})
+    os.unlink(pcases)
     rec = vlib.build_harness(lib, "c16_record", ["c16_record.cpp"])
     files = ctx.record(rec, ctx.pick(12, 48), ctx.pick(5000, 40000), "V/EndianStream", env={"VERIF_TMP": ctx.tmp})
     ctx.validate_traces("Trace_EndianStream", "Trace_EndianStream", files, label="V/EndianStream", timeout=ctx.pick(600, 3000))
@@ -47,6 +75,10 @@ def run(ctx):
         "host byte order is little-endian (checked by the harnesses); ENDIAN_NATIVE = LITTLE in the configurations",
         "memory errors/leaks are observed by ASan/LSan on the replayed and recorded executions, not decided by the model",
         "bytes on the sink are observed without the library: buffer contents, POSIX read of the file, recv(MSG_PEEK) on the peer descriptor",
+        "written values are inputs (pool of EndianStream.tla): the harnesses keep one real scalar variable / Array<T> (+ a handle "
+        "sharing its buffer) / String (+ char buffer) per pool entry for the whole history and compare their projected values "
+        "with the specification's pool (R: after the writes and after the reads of every case, i.e. after every call by prefix "
+        "closure of the cases; V: after every write of an object and at random points); exhaustive within spec/%s.cfg" % pcfg,
     ]
 
 
